@@ -225,6 +225,9 @@ func cmdCheck(args []string) int {
 		}
 	}
 	header := e.u
+	if os.Getenv("STICKVC_TIMING") != "" {
+		fmt.Fprintf(os.Stderr, "TIMING gen %.1fs obligations=%d\n", time.Since(t0).Seconds(), len(obls))
+	}
 	timeout := 10 * time.Second
 	if *tier == "thorough" {
 		timeout = 60 * time.Second
@@ -234,20 +237,7 @@ func cmdCheck(args []string) int {
 	var vacuous []*Obligation
 	coverCount := 0
 	{
-		var cov []*Obligation
-		if *tier == "thorough" {
-			cov = obls
-		} else {
-			// one per function and kind "post"/"step"
-			seen := map[string]bool{}
-			for _, o := range obls {
-				k := o.Func + "#" + o.Kind
-				if !seen[k] {
-					seen[k] = true
-					cov = append(cov, o)
-				}
-			}
-		}
+		cov := obls // every obligation's program point is checked for reachability (cheap in batch form)
 		vacuous = runCovers(cov, header, timeout)
 		for _, o := range cov {
 			if o.Kind != "lemma" {
@@ -256,6 +246,9 @@ func cmdCheck(args []string) int {
 		}
 	}
 
+	if os.Getenv("STICKVC_TIMING") != "" {
+		fmt.Fprintf(os.Stderr, "TIMING solved+covers %.1fs\n", time.Since(t0).Seconds())
+	}
 	// classify
 	byBackend := map[string]int{}
 	solverTime := 0.0
